@@ -68,10 +68,15 @@ def quiet():
 # ---------------------------------------------------------------------------------------------- real code
 def parse_real(case):
     from kyupy import verilog, bench
+    from kyupy.circuit import Circuit
     with quiet():
         if case['fmt'] == 'verilog':
-            return verilog.parse(case['text'], tlib=get_tlib(case['tlib']), branchforks=case['bf'])
-        return bench.parse(case['text'])
+            c = verilog.parse(case['text'], tlib=get_tlib(case['tlib']), branchforks=case['bf'])
+        else:
+            c = bench.parse(case['text'])
+    if not isinstance(c, Circuit):      # every generated text holds exactly one module
+        raise TypeError(f'parse returned {type(c).__name__} of length {len(c) if hasattr(c, "__len__") else "?"} instead of one Circuit')
+    return c
 
 
 def stim_rows(n_bits, seed):
